@@ -488,3 +488,14 @@ Proof.
   { destruct (info_at s i =? 0) eqn:E; [|reflexivity]. apply N.eqb_eq in E. rewrite E in Hb. discriminate. }
   rewrite step_unscrubbed, step_bad. unfold is_unscrubbed, is_bad, is_used. rewrite Hnz, Hb, Hj. simpl. split; reflexivity.
 Qed.
+
+(* ---------------------------------------------------------------------------------------------- *)
+(* dup compares the WHOLE file-level digest (HASH_MAX bytes, hash_compare / hash_hash of dup.c), whatever the size of the
+   block hashes (BLOCK_HASH_SIZE, the `hashsize` option) is: digests that agree on a prefix only do not make a pair *)
+Lemma dup_full_digest filehash l1 a l2 b l3 ha hb (k : nat) :
+  eligible filehash a ha -> eligible filehash b hb -> firstn k ha = firstn k hb -> ha <> hb ->
+  ~ dup_related (dup_loop filehash (l1 ++ a :: l2 ++ b :: l3) []) a b.
+Proof.
+  intros Ha Hb _ Hne Hrel. apply dup_iff_same_hash in Hrel as (h & Ha' & Hb').
+  apply Hne. rewrite (eligible_fun filehash _ _ _ Ha Ha'), (eligible_fun filehash _ _ _ Hb Hb'). reflexivity.
+Qed.
